@@ -386,7 +386,8 @@ class Machine:
     def st_AnnAssign(self, s: ast.AnnAssign) -> None:
         if s.value is None:
             return
-        hint = self.contract.locals.get(s.target.id) if isinstance(s.target, ast.Name) else None
+        hint = self.contract.locals.get(s.target.id) if isinstance(s.target, ast.Name) else (
+            self.contract.locals.get("." + s.target.attr) if isinstance(s.target, ast.Attribute) else None)
         self.assign(s.target, self.eval(s.value, hint))
 
     def st_AugAssign(self, s: ast.AugAssign) -> None:
@@ -623,6 +624,16 @@ class Machine:
                     v = self.env.get(n.value.id)
                     if isinstance(v, VHeapRef):
                         cells.add(v.addr)
+                elif isinstance(n, ast.Subscript) and isinstance(n.ctx, (ast.Store, ast.Del)) and isinstance(n.value, ast.Attribute):
+                    v = self._try_static_container(n.value)
+                    if v is not None:
+                        cells.add(v.addr)
+                    else:
+                        raise EngineError(f"loop body stores into {ast.unparse(n.value)}, which the engine cannot resolve to a container")
+                if isinstance(n, ast.Call) and isinstance(n.func, ast.Attribute) and n.func.attr in LIST_MUTATORS and isinstance(n.func.value, ast.Attribute):
+                    v = self._try_static_container(n.func.value)
+                    if v is not None:
+                        cells.add(v.addr)
                 elif isinstance(n, ast.For) and isinstance(n.iter, ast.Name):
                     v = self.env.get(n.iter.id)
                     if isinstance(v, VHeapRef) and v.kind == "iter":
@@ -632,6 +643,16 @@ class Machine:
             if isinstance(v, VHeapRef):
                 cells.add(v.addr)
         return cells
+
+    def _try_static_container(self, e: ast.Attribute) -> VHeapRef | None:
+        """x.attr where x is a bound name and attr resolves (through the area's hooks) to a container."""
+        if not isinstance(e.value, ast.Name) or e.value.id not in self.env:
+            return None
+        try:
+            v = self.getattr(self.env[e.value.id], e.attr)
+        except (EngineError, RaiseSig):
+            return None
+        return v if isinstance(v, VHeapRef) else None
 
     def mutated_globals(self, body: list[ast.stmt]) -> set[str]:
         out: set[str] = set()
@@ -801,6 +822,9 @@ class Machine:
                 items.append(x)
                 self.ghost_env[f"prev_done{k}" + ("" if j == 0 else f"_{j + 1}")] = dones[j]
                 dones[j] = d2
+                if streams["cells"][j][1]:
+                    full = self.ghost_env[f"seq{k}" + ("" if j == 0 else f"_{j + 1}")]
+                    self.ctx.bank.add(full.term, ("concat", d2.term, r2.term))  # type: ignore[union-attr]
             self.assign(s.target, streams["shape"](items, [self.ghost_env[f"prev_done{k}"]]))
             bind_ghosts()
             try:
@@ -1020,6 +1044,9 @@ class Machine:
             r = h(self, v)
             if r is not None:
                 return r  # type: ignore[return-value]
+        if isinstance(v, VOpt) and isinstance(v.sort.elem, type(INT)) or (isinstance(v, VOpt) and v.sort.elem == STR):
+            inner = self.to_str(v.sort.elem.wrap(v.sort.val(v.term)), conversion)
+            return VStr(z3.If(v.sort.is_none(v.term), z3.StringVal("None"), inner.term))
         # str()/repr() of any other object: an unconstrained string (sound over-approximation;
         # areas that need the value install a str hook)
         return VStr(z3.String(fresh_name("str_of")))
@@ -1266,6 +1293,12 @@ class Machine:
         raise EngineError(f"`is` on {a!r}, {b!r}")
 
     def equal(self, a: V, b: V) -> Any:
+        if not self.spec:
+            # Python-level == on objects with a user-defined __eq__ (area hook); spec-level == is identity
+            for h in getattr(self.world, "py_eq_hooks", []):
+                r = h(self, a, b)
+                if r is not None and r is not NotImplemented:
+                    return r
         for h in self.world.eq_hooks:
             r = h(self, a, b)
             if r is not None and r is not NotImplemented:
@@ -1321,6 +1354,11 @@ class Machine:
             return z3.Or(*[self.equal(item, x) for x in container.items])
         if isinstance(container, VSeq):
             it = container.sort.elem.coerce(item)
+            if not self.spec:
+                for h in getattr(self.world, "py_in_hooks", []):
+                    r = h(self, container, it)
+                    if r is not None:
+                        return r
             return z3.Contains(container.term, z3.Unit(it.term))
         r = self.call_dunder(container, "__contains__", [item])
         if r is not None:
